@@ -81,13 +81,14 @@ ProbeScns(preds) ==
             [fam |-> "pred", scn |-> Cat(Hop(AnyHop), Hop(p))],
             [fam |-> "pred", scn |-> Cat(Cat(Hop(AnyHop), Hop(p)), Hop(AnyHop))]} : p \in preds}
 
-(* ACLs: up to two specific entries followed by a catch-all entry *)
+(* ACLs: up to n (<= 3) specific entries followed by a catch-all entry *)
 AclEntries(preds) == {[allow |-> a, p |-> p] : a \in BOOLEAN, p \in preds}
 AclsOver(preds, n) ==
     LET last == {<<[allow |-> a, p |-> AnyHop]>> : a \in BOOLEAN}
         e == AclEntries(preds)
     IN last \cup {<<x>> \o l : x \in e, l \in last}
        \cup (IF n >= 2 THEN {<<x, y>> \o l : x \in e, y \in e, l \in last} ELSE {})
+       \cup (IF n >= 3 THEN {<<x, y, z>> \o l : x \in e, y \in e, z \in e, l \in last} ELSE {})
 
 \* ACL scenarios (also explored by the MC configs: AclReadingsAgree)
 AclPreds == {P(1, WildAS, "dec", 0, 0, 0), P(0, ASb, "hexl", 1, 0, 0), P(2, ASb, "hexu", 1, 0, 0),
